@@ -502,6 +502,10 @@ def run_op(src, op, opts):
     return out
 
 
+PROMOTES = ('all', 'identifier', True)          # every promoting value of the option, all of them in the deterministic product
+PROMOTES_R = ('all', 'all', 'identifier', True)
+
+
 def run_prim(src, op, promote):
     """get() of a primitive field (identifier, constant, element of a list of names) with the `promote` option: the node
     made for it must cover exactly its own source, carry the value, and the read must leave the tree alone."""
@@ -619,9 +623,11 @@ def _enum_ops(root, rng, nops):
             if isinstance(v, list):
                 if v and all(isinstance(x, str) for x in v):
                     for i in sorted({0, len(v) - 1}):
-                        prims.append(('prim', idx, fld, i))
+                        for pm in (PROMOTES if full else (rng.choice(PROMOTES_R),)):
+                            prims.append(('prim', idx, fld, i, pm))
             elif v is not None or isinstance(a, (ast.Constant, ast.MatchSingleton)):
-                prims.append(('prim', idx, fld, None))
+                for pm in (PROMOTES if full else (rng.choice(PROMOTES_R),)):
+                    prims.append(('prim', idx, fld, None, pm))
     rng.shuffle(copies)
     rng.shuffle(slices)
     rng.shuffle(prims)
@@ -646,8 +652,8 @@ def _prog_case(arg):
         opts = _opts(rng)
         try:
             if op[0] == 'prim':
-                opts = {'promote': rng.choice(['all', 'all', 'identifier', True])}
-                r = run_prim(src, op, opts['promote'])
+                opts = {'promote': op[4]}
+                r = run_prim(src, op, op[4])
             else:
                 r = run_op(src, op, opts)
         except Exception as e:       # the harness itself (or an API it relies on) failed
@@ -884,6 +890,9 @@ SHAPES = [
     'if x:\n    a = "é"\n    b = 2\ndef f():\n    ü = "ñ"; c = 1\n    d = 3\nclass K:\n    é = 1  # ñ\n    e = 4\n',
     'for i in x:\n    if i:\n        s = "é"\n        t = 1\n    else:\n        u = "ü" ;\n        v = 2\nwhile w:\n    try:\n        ä = "ö"\n        y = 1\n    finally:\n        z = "é"  # ü\n        q = 2\n',
     'with a as b:\n    "é"\n    pass\ntry:\n    pass\nexcept E:\n    m = "ñ"\n    n = 1\nelse:\n    o = "é"; p = 1\nmatch v:\n    case 1:\n        r = "ü"\n        s = 2\n',
+    'x = [1, 2.5, "é", b"b", None, True, False, 3j, ..., -1, 0x1F, 1_000, 1e3, "a" "b", \'\'\'t\nu\'\'\', r"\\d", 0]\ny: tuple[int, ...] = f(...)\nz = x[...], ...\n',
+    'match v:\n    case None | True | False: pass\n    case -1 | 2.5 | "é" | b"b" | 3j: pass\n    case K(a=None): pass\n',
+    'try:\n    pass\nexcept *E as e:\n    pass\ntry:\n    a\nexcept* (F, G): b\nexcept* H as é: c\nfinally:\n    d\ntry: x\nexcept A: y\nelse: z\n',
     'def g():\n    global ä, ö, ü\n    def h():\n        nonlocal ñ, é\n    global ç\n',
 ]
 
